@@ -120,3 +120,59 @@ GROUPS["p1"] = [
       "        let temp = self.lint_group.config.clone();\n\n        let parser = language.create_parser();\n\n        let document = Document::new_from_vec(source.clone(), &parser, &self.dictionary);\n",
       None),
 ]
+
+GROUPS["g3"] = [
+    # C05: a rule that remembers something between documents
+    E("c05-stateful-rule", ["C05"], "harper-core/src/linting/repeated_words.rs",
+      "impl Linter for RepeatedWords {\n    fn lint(&mut self, document: &Document) -> Vec<Lint> {",
+      "impl Linter for RepeatedWords {\n    fn lint(&mut self, document: &Document) -> Vec<Lint> {\n        self.seen_docs += 1;",
+      "R-C05-stateless:RepeatedWords.seen_docs"),
+    E("c05-stateful-rule-field", ["C05"], "harper-core/src/linting/repeated_words.rs",
+      "pub struct RepeatedWords {",
+      "pub struct RepeatedWords {\n    seen_docs: usize,",
+      None),
+    E("c05-stateful-rule-init", ["C05"], "harper-core/src/linting/repeated_words.rs",
+      "            special_cases: vec![char_string!(\"this\")],",
+      "            special_cases: vec![char_string!(\"this\")],\n            seen_docs: 0,",
+      None),
+    # C05: config hash dropped from the cache key
+    E("c05-key-no-config", ["C05", "C11"], "harper-core/src/linting/lint_group.rs",
+      "let config_hash = self.hasher_builder.hash_one((&self.config, token_sig));",
+      "let config_hash = self.hasher_builder.hash_one(token_sig);",
+      ["R-C05-key:config:LintGroup::lint:cache-", "R-C11-key:LintGroup::lint:cache-"]),
+    # C05: asymmetric re-basing
+    E("c05-rebase-asym", ["C05"], "harper-core/src/linting/lint_group.rs",
+      "                    lint.span.pull_by(chunk_span.start);",
+      "                    lint.span.pull_by(chunk_span.end);",
+      "R-C05-key:chunk-cache:rebase"),
+    # C05: a new interior-mutable static
+    E("c05-static-counter", ["C05"], "harper-core/src/linting/an_a.rs",
+      "impl Linter for AnA {",
+      "static LINT_CALLS: std::sync::atomic::AtomicUsize = std::sync::atomic::AtomicUsize::new(0);\n\nimpl Linter for AnA {",
+      "R-C05-statics:linting::an_a::LINT_CALLS"),
+    # C05: tie-break removed again
+    E("c05-order-ties", ["C05"], "harper-core/src/spell/mutable_dictionary.rs",
+      ".sorted_unstable_by_key(|a| (a.1, a.0))",
+      ".sorted_unstable_by_key(|a| a.1)",
+      "R-C05-order:wordmap-order:<MutableDictionary@Dictionary>::fuzzy_match"),
+    # C07: publish before the document is refreshed
+    E("c07-skip-save", ["C07"], "harper-ls/src/backend.rs",
+      "                let mut dict = self.load_user_dictionary().await;\n                dict.append_word(word, WordMetadata::default());\n                self.save_user_dictionary(dict)",
+      "                let mut dict = self.load_user_dictionary().await;\n                dict.append_word(word, WordMetadata::default());\n                self.save_user_dictionary(MutableDictionary::new())",
+      "R-C07-pipeline:HarperAddToUserDict:dataflow"),
+    # C07: in-place truncation again
+    E("c07-truncate", ["C07"], "harper-ls/src/dictionary_io.rs",
+      "    let file = File::create(&tmp_path).await?;",
+      "    let file = File::create(path.as_ref()).await?;",
+      "R-C07-atomic:save_dict:in-place-truncate"),
+    # C09: handler forgets to publish on one path
+    E("c09-no-publish", ["C09"], "harper-ls/src/backend.rs",
+      "            error!(\"{err}\")\n        }\n\n        self.publish_diagnostics(&params.text_document.uri).await;",
+      "            error!(\"{err}\");\n            return;\n        }\n\n        self.publish_diagnostics(&params.text_document.uri).await;",
+      "R-C09-publish:Backend::did_change"),
+    # C09: disk refresh from a command again
+    E("c09-disk-refresh", ["C09"], "harper-ls/src/backend.rs",
+      "                self.save_file_dictionary(&file_url, dict)\n                    .await\n                    .map_err(|err| error!(\"{err}\"))\n                    .err();\n                self.refresh_document(&file_url)",
+      "                self.save_file_dictionary(&file_url, dict)\n                    .await\n                    .map_err(|err| error!(\"{err}\"))\n                    .err();\n                self.update_document_from_file(&file_url, None)",
+      "R-C09-source:execute_command:HarperAddToFileDict"),
+]
